@@ -17,6 +17,8 @@ fn model() -> Model {
     let mut m = base_model();
     m.vars.insert("a".into(), RV::Int(7));
     m.vars.insert("x".into(), RV::Int(0));
+    m.vars.insert("e0".into(), RV::Tuple(vec![]));
+    m.vars.insert("e1".into(), RV::Tuple(vec![RV::Empty]));
     m
 }
 
@@ -242,7 +244,7 @@ impl Phase for RandomSeq {
             match r.below(if depth == 0 { 7 } else { 10 }) {
                 0 => Ast::Empty,
                 1 => Ast::Const(RV::Int(*k)),
-                2 => Ast::Read("a".into()),
+                2 => Ast::Read((*r.pick(&["a", "a", "e0", "e1"])).to_string()),
                 3 | 4 => Ast::Assign("=", "x".into(), Box::new(Ast::Const(RV::Int(*k)))),
                 5 => Ast::Call("t".into(), Box::new(Ast::Const(RV::Int(*k)))),
                 6 => {
